@@ -428,6 +428,80 @@ fn run_early(mode: Mode, cached_actions: usize, live_actions: usize, delay_ms: u
     )
 }
 
+// -------------------------------------------------------------------------------------------------
+// C11 through the node layer: a raw Tcp stream whose first chunks arrive before the listener call
+
+/// a raw peer sends buffers (sizes around the 65535-byte read buffer) with pauses; the node connects
+/// with Transport::Tcp and starts its listener only after `late` of them were sent; the concatenation
+/// of the Message chunks must be the sent stream, every chunk within 1..=65535, Connected first
+fn run_tcp_late(mode: Mode, late: usize) -> (String, String, String, String) {
+    let sizes: [usize; 7] = [1, 65534, 65535, 65536, 17, 4096, 70000];
+    let peer = std::net::TcpListener::bind("127.0.0.1:0").unwrap();
+    let paddr = peer.local_addr().unwrap();
+    let (handler, listener) = node::split::<u64>();
+    let (_ep, _) = handler.network().connect(Transport::Tcp, paddr).unwrap();
+    let (mut stream, _) = peer.accept().unwrap();
+    stream.set_nodelay(true).ok();
+    let mut sent: Vec<u8> = vec![];
+    let mut send_one = |k: usize, sent: &mut Vec<u8>| {
+        let buf: Vec<u8> = (0..sizes[k]).map(|i| (i * 7 + k * 31 + i / 251) as u8).collect();
+        let _ = stream.write_all(&buf);
+        sent.extend_from_slice(&buf);
+        std::thread::sleep(Duration::from_millis(15));
+    };
+    let late = late.min(sizes.len());
+    for k in 0..late {
+        send_one(k, &mut sent);
+    }
+    std::thread::sleep(Duration::from_millis(150));
+    let observed: Arc<Mutex<Vec<Ev>>> = Arc::new(Mutex::new(vec![]));
+    let obs2 = observed.clone();
+    let running = start(mode, &handler, listener, move |e| {
+        if !matches!(e, Ev::Signal(_)) {
+            obs2.lock().unwrap().push(e);
+        }
+    });
+    for i in 0..3 {
+        handler.signals().send(i);
+    }
+    for k in late..sizes.len() {
+        send_one(k, &mut sent);
+    }
+    let total = sent.len();
+    let deadline = Instant::now() + Duration::from_secs(4);
+    loop {
+        let got: usize = observed.lock().unwrap().iter().map(|e| if let Ev::Message(_, d) = e { d.len() } else { 0 }).sum();
+        if got >= total || Instant::now() > deadline {
+            break
+        }
+        std::thread::sleep(Duration::from_millis(5));
+    }
+    std::thread::sleep(Duration::from_millis(40));
+    handler.stop();
+    let returned = finish(running, Duration::from_secs(3));
+    let obs = observed.lock().unwrap().clone();
+    let mut cat: Vec<u8> = vec![];
+    let mut bounds = true;
+    let mut chunks = 0;
+    for e in &obs {
+        if let Ev::Message(_, d) = e {
+            bounds &= !d.is_empty() && d.len() <= 65535;
+            cat.extend_from_slice(d);
+            chunks += 1;
+        }
+    }
+    let connected_first = matches!(obs.first(), Some(Ev::Connected(true)));
+    let stream_ok = cat == sent;
+    let first_diff = cat.iter().zip(sent.iter()).position(|(a, b)| a != b);
+    let ok = stream_ok && bounds && connected_first && returned.is_some();
+    (
+        format!("node tcp {} {}", mode.name(), late),
+        format!("stream={} chunks_in_bounds={} connected_first={}", if stream_ok { "ok" } else { "broken" }, bounds, connected_first),
+        if ok { "ok".into() } else { format!("FAIL received {} of {} bytes in {} chunks, first difference at {:?}, bounds={} connected_first={} returned={:?}", cat.len(), total, chunks, first_diff, bounds, connected_first, returned) },
+        format!("tcp-late,{},boundary{}", mode.name(), if late >= 3 { ",cached3,burst3" } else { "" }),
+    )
+}
+
 fn main() {
     quiet_panics();
     let out = std::io::stdout();
@@ -463,6 +537,14 @@ fn main() {
                 }
             }
         }
+        "gen-tcp" => {
+            for m in modes {
+                for late in [0usize, 3, 7] {
+                    let (c, i, o, t) = run_tcp_late(m, late);
+                    emit(&mut out, &c, &i, &o, &t);
+                }
+            }
+        }
         "gen-early" => {
             let mut rng = Rng::new(arg_u64(2, 1) ^ 0xea71);
             let n = arg_u64(3, 4);
@@ -484,6 +566,7 @@ fn main() {
                 let row = match ws.as_slice() {
                     ["node", "serial", m, d] => run_serial(parse_mode(m), d.parse().unwrap_or(0)),
                     ["node", "stop", m, sc, p] => run_stop(parse_mode(m), sc, p.parse().unwrap_or(0)),
+                    ["node", "tcp", m, late] => run_tcp_late(parse_mode(m), late.parse().unwrap_or(0)),
                     ["node", "early", m, c, l] => run_early(parse_mode(m), c.parse().unwrap_or(0), l.parse().unwrap_or(0), 20, &mut rng),
                     _ => (line.clone(), "bad-case".into(), "ok".into(), String::new()),
                 };
